@@ -6,7 +6,10 @@ URIS = [b'/', b'/a', b'/a/b?c=d', b'http://localhost/x', b'http://h:80/', b'*', 
         b'a', b'/machine-config', b'/actions',
         # three- and four-byte characters whose second byte lies outside the ranges special-cased for E0/ED/F0/F4
         '/\u1800'.encode(), '/\u2800x'.encode(), '/\U00050000'.encode(), '/\U000d0000/y'.encode(), '/\ud7ff\ue000'.encode(),
-        b'/del\x7f', b'/\x7f\x01~']
+        b'/del\x7f', b'/\x7f\x01~', b'\t/home', b'/home\x0c', b'\xe2\x80\x83http://a/b', b'\x0b', b'/x\xc2\xa0',
+        # valid sequences at the ends of every second-byte range of UTF-8
+        b'/\xe0\xa0\x80', b'/\xed\x9f\xbf', b'/\xf0\x90\x80\x80', b'/\xf4\x8f\xbf\xbf', b'/\xc2\x80', b'/\xdf\xbf', b'/\xef\xbf\xbf',
+        b'/\xe1\x80\xbf', b'/\xec\xbf\x80', b'/\xee\x80\x80', b'/\xf1\x80\x80\x80', b'/\xf3\xbf\xbf\xbf']
 LIMITS = [0, 1, 2, 3, 4, 5, 6, 7, 8, 1023, 1024, 1025, 51199, 51200, 51201, 2 ** 32 - 1]
 
 
@@ -18,7 +21,8 @@ PADS = [b'', b'', b' ', b'  ', b'\t', b'\xc2\xa0', b'\xe2\x80\x83', b'\xe3\x80\x
 # characters that share bytes with White_Space characters but are not white space: never trimmed
 NEAR_WS = [s_.encode() for s_ in ('\u00e0', '\u00c5', '\u00a9', '\u200b', '\u202a', '\u2060', '\u3001', '\u1681', '\u20ac', '\u1800',
                                   '\U00050000', '\u2027', '\u205e', '\u2100', '\u167f', '\u3040',
-                                  '\u0084', '\u0086', '\u009f', '\u00a1', '\u1000', '\u201f', '\u105f', '\u2029x', '\x7f')]
+                                  '\u0084', '\u0086', '\u009f', '\u00a1', '\u1000', '\u201f', '\u105f', '\u2029x', '\x7f',
+                                  '\x08', '\x0e', '\x1f', '!', '\u2007x', '\u200bx', '\u1680x', '\u180e', '\u2028x', '\u202fx', '\u205fx', '\u3000x', '\u0085x', '\u00a0x')]
 
 
 def pad(rng, b, left=True):
@@ -146,7 +150,10 @@ def gen_bad_request(rng, limit=51200, kind=None):
     elif kind == 'empty-uri':
         u = b''
     elif kind == 'nonutf8-uri':
-        u = rng.choice([b'/\xff', b'\xc3', b'/\xed\xa0\x80', b'/\xf4\x90\x80\x80', b'/\xc0\xaf'])
+        u = rng.choice([b'/\xff', b'\xc3', b'/\xed\xa0\x80', b'/\xf4\x90\x80\x80', b'/\xc0\xaf',
+                        # one step outside every range of UTF-8
+                        b'/\xe0\x9f\x80', b'/\xf0\x8f\x80\x80', b'/\xc1\xbf', b'/\xf5\x80\x80\x80', b'/\xc2\x7f', b'/\xc2\xc0', b'/\xe1\x7f\x80',
+                        b'/\xe1\x80\xc0', b'/\xf1\x80\x80\x7f', b'/\xf1\x80\xc0\x80', b'/\x80', b'/\xbf', b'/\xf8\x88\x80\x80\x80', b'/\xe2\x82', b'/\xf0\x9f\x98'])
     elif kind == 'bad-version':
         v = rng.choice([b'HTTP/1.2', b'HTTP/2', b'http/1.1', b'HTTP/1.1 ', b'', b'HTTP/1.10', b'HTTP/1.', b'HTTP/1.1\r', b'HTTP/1.1 extra',
                         b'HTTP/1.01', b'HTTP/1', b'HTTP/1.1x'])
